@@ -21,6 +21,7 @@ def jobs(pid, tier, seed):
     out += [{"kind": "fixture", "name": nm, "seed": seed * 1000 + i} for nm in sorted(SPECS) for i in range(8 if tier == "quick" else 150)]
     n = 900 if tier == "quick" else 20000
     out += [{"kind": "diff", "seed": seed * 1000003 + i} for i in range(n)]
+    out += [{"kind": "diff", "seed": seed * 1000003 + 5000000 + i, "life": 1} for i in range(n // 2)]
     return out
 
 
@@ -77,8 +78,20 @@ def dirdiff_histories():
     return _dd
 
 
-def gen_hist(s):
+def gen_hist(s, life=False):
     napps = 2 + (s % 3 == 0)
+    if life:
+        from ..lifegen import LifeGen
+        # every third one names the same explicit mailbox id in both apps (on the unchanged tree that runs into the
+        # known finding F8; what a tree does *instead* of failing is judged by the online oracles)
+        g = LifeGen(s, napps=2, two_apps=True, body_prefix="same", cross_app_mailboxes=(s % 3 == 0))
+        h = g.gen()
+        k = 0
+        for st in h:
+            if st[0] == "send" and isinstance(st[2], dict) and st[2].get("type") == "add" and "body" in st[2]:
+                k += 1
+                st[2]["body"] = "same-%d" % (k % 3)
+        return h, g.apps
     if s % 4 == 1:
         # dense profile: the numeric name space fills up across apps (allocation must not look at other apps)
         g = Gen(s, napps=napps, nsides=3, steps=120, p_illegal=0.02, names=[str(i) for i in range(1, 10)], body_prefix="same",
@@ -129,10 +142,15 @@ def run_job(pid, job, acc):
         cfg = Config(usage=bool(job["i"] % 2) and len(hist) < 500, allow_list=bool(job["i"] % 3))
     else:
         s = job["seed"]
-        hist, apps = gen_hist(s)
+        hist, apps = gen_hist(s, life=bool(job.get("life")))
         cfg = cfg_for(s)
     # the direct form, online
-    run_hist(acc, hist, cfg, s, "direct:%d" % s, nontrivial_keys=KEYS, quiesce=False)
+    ex0 = run_hist(acc, hist, cfg, s, "direct:%d" % s, nontrivial_keys=KEYS, quiesce=False)
+    if any(k["id"] == "F8" for k in ex0.tracker.known):
+        # the known cross-app id failure is itself a difference between "with" and "without" the other app
+        acc.ev["c06_differential_skipped_after_known_F8"] += 1
+        acc.cases += 1
+        return
     capps = diff.conn_apps(hist)
     for app in apps:
         conns = {c for c, (a, _) in capps.items() if a == app}
